@@ -91,5 +91,8 @@ class PersistentWorker(Worker):
 
         self._get_result() # this is required to sync user state in some cases (fetch results, at least persistant process)
         ctor_args, ctor_kwargs = self._get_restart_args()
+        # the object is about to be initialised from scratch, nobody should find it half-way through while going over
+        # the active children - it registers itself again once its new child is running
+        Worker.unregister_child(self)
         self.__dict__.clear()
         type(self).__init__(self, *ctor_args, results_pipe=results_pipe, **ctor_kwargs, _is_restart=True)
